@@ -71,9 +71,16 @@ Definition obs_fiber (split : splitter) (c : c08_case) (lev : nat) (es : fib) : 
     end
   end.
 
+(* updatePayloadsBelow -> _clearEmptyFibers (fix S29): a sub-fiber at the split level that has
+   elements but only default values is emptied (clear()) before the descent; a payload that is
+   not a fiber is left alone *)
+Definition cleared (t : tree) : tree :=
+  match t with Node _ => Node [] | Leaf v => Leaf v end.
+
 (* _splitGeneric: depth 0 splits the fiber itself; depth k descends k levels
    (updatePayloads: every payload above the last level; at the last level only the non-empty
-   ones are replaced, the others stay as they are) *)
+   ones are replaced by their split, the all-default ones are skipped — and, by
+   _clearEmptyFibers, are empty fibers by then) *)
 Fixpoint obs_depth (split : splitter) (c : c08_case) (k lev : nat) (t : tree) : option V :=
   match t with
   | Leaf v => None
@@ -85,7 +92,7 @@ Fixpoint obs_depth (split : splitter) (c : c08_case) (k lev : nat) (t : tree) : 
               (map (fun ct =>
                       match k' with
                       | O => if is_empty (k_d c) (snd ct)
-                             then Some (VL [VZ (fst ct); VL [VZ (-3); enc_tree (snd ct)]])
+                             then Some (VL [VZ (fst ct); VL [VZ (-3); enc_tree (cleared (snd ct))]])
                              else match obs_depth split c k' (S lev) (snd ct) with
                                   | Some v => Some (VL [VZ (fst ct); v]) | None => None end
                       | S _ => match obs_depth split c k' (S lev) (snd ct) with
